@@ -74,7 +74,8 @@ class Model:
             return {"Ok"}
         return {"IoError"}
 
-    def remove_fully(self, key):
+    def remove_fully(self, key, observed="Ok"):
+        """`observed` selects the branch where the property leaves the outcome open."""
         e = self.index.get(key)
         if e is not None:
             a = ref.sri_address(e["integrity"])
@@ -83,7 +84,12 @@ class Model:
                 del self.index[key]
                 self.buckets.discard(key)
                 return {"Ok"}
-            return {"IoError"}
+            # entry present, content already gone: finishing the removal (Ok) or
+            # refusing with unchanged state (IoError) are both acceptable
+            if observed == "Ok":
+                del self.index[key]
+                self.buckets.discard(key)
+            return {"Ok", "IoError"}
         if key in self.buckets:
             self.buckets.discard(key)
             return {"Ok"}
